@@ -36,9 +36,11 @@ def drawn : List Obs → List Nat
 theorem step_next_le (vr : Variant) (k : Nat) (c : Conn V) (op : Op V) :
     c.next ≤ (step vr k c op).1.next := by
   cases op <;> simp only [step]
-  · split <;> simp
   · split
     · simp
+    · simp only; split <;> omega
+  · split
+    · simp only; split <;> omega
     · split <;> simp
   · simp only [recvResponse, complete]; repeat' split
     all_goals simp
@@ -422,7 +424,7 @@ theorem unknown_id_harmless (vr : Variant) (hl : vr.lookupGuard = true) (hs : vr
     whose id is a list, and a response batch with ids `0` and `"x"`, end in `TypeError` — the
     counter-example that a regression removing either repair brings back. -/
 theorem unknown_id_pinned_witness :
-    let vr : Variant := ⟨true, false, false⟩
+    let vr : Variant := repaired false false
     (step vr 1 ((run vr 1 (Conn.init (some .v1) 0) [.sendRequest true]).1)
       (.recvSingle .v1 ⟨some (.unhashable 0), true, .val (4 : Nat)⟩)).2 = .raised .typeError ∧
     (step vr 1 ((run vr 1 (Conn.init (some .v2) 0) [.sendBatch [.req, .req] true]).1)
@@ -887,7 +889,9 @@ open Aiorpcx.Facts.C01 in
 theorem facts_guards : lookupGuarded = true ∧ sortGuarded = true := by decide
 
 /-- the variant the facts describe: F7 applied, guards as probed -/
-def treeVariant : Variant := repaired Facts.C01.lookupGuarded Facts.C01.sortGuarded
+def treeVariant : Variant :=
+  { repaired Facts.C01.lookupGuarded Facts.C01.sortGuarded with
+    failDrawsSingle := Facts.C01.failDrawsSingle, failDrawsBatch := Facts.C01.failDrawsBatch }
 
 /-- hence `unknown_id_harmless` applies to the tree as probed -/
 theorem facts_guards_variant :
